@@ -83,6 +83,28 @@ ClearOutcome ==
   /\ ic' = [ic EXCEPT !.outcome = NoOutcome] /\ ch' = [ch EXCEPT !.outcome = NoOutcome]
   /\ obs' = <<"clear_outcome">> /\ UNCHANGED wk
 
+\* reset_outcome(Some(o) / None): stores or clears unconditionally
+ResetOutcome ==
+  /\ Mutable
+  /\ \E o \in SomeOutcomes \cup {NoOutcome} :
+       /\ ic' = [ic EXCEPT !.outcome = o] /\ ch' = [ch EXCEPT !.outcome = o]
+       /\ obs' = <<"reset_outcome", o>>
+  /\ UNCHANGED wk
+
+\* push_uci_list(text) with two tokens: the moves are pushed one by one; the first token that does not denote a
+\* legal move stops the call with an error and what was pushed before it STAYS (a partial effect, as in the code)
+PushList ==
+  /\ Mutable /\ ch.outcome = NoOutcome /\ ChLen(ch) + 2 <= MaxLen
+  /\ \E m1 \in {m \in Legal(Cur(ch)) : Allowed(m)} \cup {NullMove} :
+       IF m1 = NullMove
+       THEN /\ obs' = <<"pushlist", "err", 0, <<m1>>>> /\ UNCHANGED <<ic, ch>>
+       ELSE LET ic1 == IPush(ic, m1)  ch1 == ChPush(ch, m1) IN
+            \E m2 \in {m \in Legal(Cur(ch1)) : Allowed(m)} \cup {NullMove} :
+              IF m2 = NullMove
+              THEN /\ ic' = ic1 /\ ch' = ch1 /\ obs' = <<"pushlist", "err", 1, <<m1, m2>>>>
+              ELSE /\ ic' = IPush(ic1, m2) /\ ch' = ChPush(ch1, m2) /\ obs' = <<"pushlist", "ok", 2, <<m1, m2>>>>
+  /\ UNCHANGED wk
+
 \* set_auto_outcome(filter): the CODE consults its repetition table (ICalcOutcomeAllowed); the
 \* PROPERTY speaks about the abstract history (AutoAllowed) - Inv_AutoOutcome relates the two
 SetAuto ==
@@ -120,7 +142,7 @@ WalkEnd ==
   /\ wk.active /\ wk' = [wk EXCEPT !.w.pos = Len(ic.stack), !.i = ChLen(ch), !.last = <<"none">>]
   /\ obs' = <<"wend">> /\ UNCHANGED <<ic, ch>>
 
-Next == PushLegal \/ PushIllegal \/ PushGarbage \/ Pop \/ SetOutcome \/ ClearOutcome \/ SetAuto
+Next == PushLegal \/ PushIllegal \/ PushGarbage \/ PushList \/ Pop \/ SetOutcome \/ ClearOutcome \/ ResetOutcome \/ SetAuto
         \/ WalkNew \/ WalkDrop \/ WalkNext \/ WalkPrev \/ WalkStart \/ WalkEnd
 
 Spec == Init /\ [][Next]_vars
@@ -153,6 +175,10 @@ Inv_C17_Walker ==
     /\ wk.last[1] = "some" =>
          \* the returned board is the position preceding the returned move
          \E k \in 1..ChLen(ch) : wk.last[2] = Scratch(ch.hist[k]) /\ wk.last[3] = ch.moves[k]
+
+\* a move list that fails at token k leaves exactly the k tokens before it pushed (C13 for push_uci_list)
+Act_PushListPartial ==
+  [][obs'[1] = "pushlist" => (ChLen(ch') = ChLen(ch) + obs'[3] /\ (obs'[2] = "err" => obs'[3] < 2))]_vars
 
 \* action properties
 \* a refused push changes nothing (C02 / C13)
